@@ -121,4 +121,46 @@ theorem kfreq_formula (n : Nat) (c : Int) (j : Nat) (hj : j < n) :
     kfreq n c false j = j - c ∧ kfreq n c true j = kfreq n c false (n - 1 - j) := by
   have _ := hj
   simp [kfreq]
+/-! ### radial phase encoding -/
+
+theorem rpeKrad_centre (shifts : List Rat) (centre : Int) (k1 k2 : Nat) (h : (k1 : Int) = centre) :
+    rpeKrad shifts centre k1 k2 = 0 := by
+  simp [rpeKrad, h]
+
+theorem rpeKrad_periodic (shifts : List Rat) (centre : Int) (k1 k2 : Nat) :
+    rpeKrad shifts centre k1 (k2 + shifts.length) = rpeKrad shifts centre k1 k2 := by
+  simp [rpeKrad]
+
+theorem rpeKrad_mod (shifts : List Rat) (centre : Int) (k1 k2 : Nat) :
+    rpeKrad shifts centre k1 (k2 % shifts.length) = rpeKrad shifts centre k1 k2 := by
+  simp [rpeKrad]
+
+theorem rpeKrad_strictMono (shifts : List Rat) (centre : Int) (k1 k1' k2 : Nat)
+    (hs : ∀ s ∈ shifts, 0 ≤ s ∧ s < 1) (h : k1 < k1') :
+    rpeKrad shifts centre k1 k2 < rpeKrad shifts centre k1' k2 := by
+  have hsh : 0 ≤ shifts.getD (k2 % shifts.length) 0 ∧ shifts.getD (k2 % shifts.length) 0 < 1 := by
+    by_cases hl : shifts.length = 0
+    · have : shifts = [] := List.length_eq_zero_iff.mp hl
+      subst this; simp
+    · have hlt : k2 % shifts.length < shifts.length := Nat.mod_lt _ (Nat.pos_of_ne_zero hl)
+      rw [List.getD_eq_getElem?_getD, List.getElem?_eq_getElem hlt]
+      exact hs _ (List.getElem_mem hlt)
+  obtain ⟨h0, h1⟩ := hsh
+  unfold rpeKrad
+  simp only
+  have hk : ((k1 : Int) - centre) < ((k1' : Int) - centre) := by omega
+  set r : Int := (k1 : Int) - centre with hr
+  set r' : Int := (k1' : Int) - centre with hr'
+  by_cases a : r = 0 <;> by_cases b : r' = 0
+  · omega
+  · rw [if_pos a, if_neg b]
+    have : (1 : Rat) ≤ (r' : Rat) := by exact_mod_cast (by omega : (1 : Int) ≤ r')
+    linarith
+  · rw [if_neg a, if_pos b]
+    have : (r : Rat) ≤ -1 := by exact_mod_cast (by omega : r ≤ -1)
+    linarith
+  · rw [if_neg a, if_neg b]
+    have : (r : Rat) < (r' : Rat) := by exact_mod_cast hk
+    linarith
+
 end M
